@@ -114,10 +114,12 @@ def templates(u, M, rnd, wire):
     b = u.b
     from ipaddress import IPv6Address
     known_ids = [x.id() for x in u.known]
+    known_ids_and_next = known_ids + [u.next.id()] * 3
     choices = [
-        lambda: wire.hello(nonce=rnd.randrange(1 << 32), my_port=rnd.choice([0, 2412, 65535])),
+        lambda: wire.hello(nonce=rnd.randrange(1 << 32), my_port=rnd.choice([0, 2412, 65535]),
+                           user_agent=bytes(rnd.randrange(256) for _ in range(rnd.choice([0, 1, 12, 255])))),
         lambda: M.GetBlocksMessage([rnd.choice(known_ids + [b"\x05" * 32]) for _ in range(rnd.randrange(0, 4))]),
-        lambda: M.InventoryMessage([M.InventoryItem(rnd.choice([M.DATA_BLOCK, M.DATA_TRANSACTION, b"\x00\x09"]), rnd.choice(known_ids + [b"\x06" * 32])) for _ in range(rnd.randrange(0, 4))]),
+        lambda: M.InventoryMessage([M.InventoryItem(rnd.choice([M.DATA_BLOCK, M.DATA_BLOCK, M.DATA_TRANSACTION, b"\x00\x09"]), rnd.choice(known_ids_and_next + [b"\x06" * 32])) for _ in range(rnd.randrange(0, 4))]),
         lambda: M.GetDataMessage(rnd.choice([M.DATA_BLOCK, M.DATA_BLOCK, M.DATA_TRANSACTION, M.DATA_HEADER]), rnd.choice(known_ids + [b"\x07" * 32])),
         lambda: M.DataMessage(M.DATA_BLOCK, b.to_sk_block(rnd.choice(u.known))),
         lambda: M.DataMessage(M.DATA_BLOCK, b.to_sk_block(rnd.choice(u.bad_blocks))),
@@ -203,7 +205,8 @@ def one_case(u, rnd, res, M, record=None):
     att = simnet.Wire(net, node, host="10.6.6.6")
     greeted = rnd.random() < 0.6
     if greeted:
-        att.greet(nonce=666)
+        # a perfectly valid greeting, whose free-form fields the attacker chooses (arbitrary bytes in the user agent)
+        att.greet(nonce=666, user_agent=rnd.choice([b"harness", b"sashimi 0.1.\xb3", bytes(rnd.randrange(256) for _ in range(rnd.randrange(0, 40))), b"%s%d{}\\"]))
     for _ in range(2):                       # warm-up: greetings answered, the node's own peer requests are out
         net.step(node)
         net.drain(None, only=[node])
@@ -280,13 +283,26 @@ def one_case(u, rnd, res, M, record=None):
     if net.escaped and not res.failures:
         res.fail("escape", "exception-escaped-late", net.escaped[0][1], case)
     # and a NEW valid block delivered by a bystander afterwards is still adopted (the attack must not have poisoned anything)
-    if rnd.random() < 0.35 and after["cs"] == before["cs"]:
+    if rnd.random() < 0.5 and after["cs"] == before["cs"]:
         w = by[0]
         simnet.CLOCK.now = max(simnet.CLOCK.now, u.next.ts)
-        w.send(M.DataMessage(M.DATA_BLOCK, u.b.to_sk_block(u.next)))
-        w.deliver()
-        res.count("bystander_delivers_new_block_after_attack")
-        if node.cm.coinstate.current_chain_hash != u.next.id():
+        if rnd.random() < 0.5:
+            w.send(M.DataMessage(M.DATA_BLOCK, u.b.to_sk_block(u.next)))
+            w.deliver()
+            res.count("bystander_delivers_new_block_after_attack")
+        else:
+            # the bystander ANNOUNCES the block (inventory); the node must ask for it and adopt it when it is served
+            n0 = len(w.received)
+            w.send(M.InventoryMessage([M.InventoryItem(M.DATA_BLOCK, u.next.id())]))
+            w.deliver()
+            asks = [(h, m) for (h, m) in w.received[n0:] if isinstance(m, M.GetDataMessage) and m.hash == u.next.id()]
+            res.count("bystander_announces_new_block_after_attack")
+            if not asks:
+                res.fail("bystander", "announced-block-not-requested-after-attack", "after the attacker's input a block announced by a well-behaved peer is never requested", case)
+            else:
+                w.send(M.DataMessage(M.DATA_BLOCK, u.b.to_sk_block(u.next)), in_response_to=asks[0][0].id)
+                w.deliver()
+        if node.cm.coinstate.current_chain_hash != u.next.id() and not res.failures:
             res.fail("bystander", "valid-block-from-bystander-refused-after-attack", "after the attacker's input a NEW valid block delivered by a well-behaved peer is not adopted", case)
     return case
 
